@@ -291,7 +291,7 @@ fn oob_cause(c: &Case) -> &'static str {
 }
 
 /// (index forms | storage | kind) combinations observed to be supported on the pinned tree
-/// (baselines/C03_supported.json, regenerated with tools/learn_c03.py from a thorough run's evidence).
+/// (baselines/C03_supported.json, regenerated with tools/learn.py C03 from a thorough run's evidence).
 fn supported() -> &'static std::collections::HashSet<String> {
   static S: std::sync::OnceLock<std::collections::HashSet<String>> = std::sync::OnceLock::new();
   S.get_or_init(|| {
